@@ -63,12 +63,12 @@ def write(root, samples, categories, vis_levels=("full", "most", "partial", "non
             ex, ey, ez, eyaw, epitch, eroll = s["ego"]
         T["ego_pose"].append(dict(token=tok("ep", i), timestamp=s["ts"], rotation=list(geom.quat_from_ypr(eyaw, epitch, eroll)), translation=[ex, ey, ez]))
         T["sample_data"].append(dict(token=tok("sd", i), sample_token=tok("s", i), ego_pose_token=tok("ep", i), calibrated_sensor_token="cs0",
-                                     timestamp=s["ts"], fileformat="pcd.bin", is_key_frame=True, height=0, width=0,
+                                     timestamp=s.get("lidar_ts", s["ts"]), fileformat="pcd.bin", is_key_frame=True, height=0, width=0,
                                      filename="data/%s/%d.pcd.bin" % (lidar_channel, i), prev=tok("sd", i - 1) if i > 0 else "",
                                      next=tok("sd", i + 1) if i < n - 1 else ""))
         if extra_camera:
             T["sample_data"].append(dict(token=tok("sc", i), sample_token=tok("s", i), ego_pose_token=tok("ep", i), calibrated_sensor_token="cs1",
-                                         timestamp=s["ts"], fileformat="jpg", is_key_frame=True, height=720, width=1280,
+                                         timestamp=s.get("cam_ts", s["ts"]), fileformat="jpg", is_key_frame=True, height=720, width=1280,
                                          filename="data/CAM_FRONT/%d.jpg" % i, prev=tok("sc", i - 1) if i > 0 else "",
                                          next=tok("sc", i + 1) if i < n - 1 else ""))
         for a in s["anns"]:
